@@ -1,6 +1,8 @@
 (* C19 — The package cache is transparent and survives crashes and concurrent
    writers.  Property theorems only; proofs are in Proofs/CacheProofs.v. *)
 From Apko Require Import Base.Prelude Model.Cache Spec.CacheSpec Proofs.CacheProofs Proofs.CacheTemp Proofs.CacheCommit Generated.C19Cache.
+From Apko Require Import Model.CacheFlight Spec.CacheFlightSpec Proofs.CacheFlightProofs.
+From Coq Require Import Permutation.
 Open Scope string_scope. Open Scope list_scope.
 
 (* For every origin, every NUMBER of builders, each running the index
@@ -435,3 +437,198 @@ Proof.
   exists t, e, w, k. repeat split; auto. intros Eb. rewrite (Hb' Eb). exact Hw.
 Qed.
 Print Assumptions c19_offline_tmp_complete_is_origin.
+
+
+(* ======================================================================================
+   Request coalescing inside one process (Model/CacheFlight.v): singleflight groups,
+   flightCache.Do, the etag cache in front of headFlight, the sync.Once cache of expanded
+   packages — one model object, configured by what the SHAPE of the source says
+   (goextract: which lookups precede the work, what is stored, under which condition).
+   ====================================================================================== *)
+
+(* the configurations the model runs in are the ones read from the source of this run *)
+Theorem c19_flight_code :
+  conf_of_shape flight_do_shape = Some conf_flight_cache /\
+  conf_of_shape head_shape = Some conf_head_etag /\
+  conf_of_shape get_shape = Some conf_singleflight /\
+  etag_cache_guards = ["Cache.load:nil-etag-cache-returns"; "Cache.store:nil-etag-cache-returns"] /\
+  (* apkCache.get: every result is kept (the code today, finding C19-F4) or, with fixes/C19-F4.patch,
+     a failed entry is forgotten: then it is a flight cache *)
+  (conf_of_once_shape apk_cache_shape = Some conf_once \/ conf_of_once_shape apk_cache_shape = Some conf_flight_cache).
+Proof. repeat split; try reflexivity. vm_compute. first [left; reflexivity | right; reflexivity]. Qed.
+Print Assumptions c19_flight_code.
+
+(* Transparency and coalescing, for EVERY configuration, every number of callers and keys and
+   every interleaving of their steps with the executions of fn (any trace of events; outcomes of fn
+   chosen by the environment): whatever any caller is handed for a key is a result that some
+   execution of fn returned for that key; at every moment at most one execution runs per key and
+   every finished execution was started by a caller. *)
+Theorem c19_flight_transparent : forall cf tr,
+  let s := frun cf finit tr in
+  Transparent s /\ Coalesced s /\ (forall k o, memo s k = Some o -> In (k, o) (execs s)).
+Proof.
+  intros cf tr s. split; [apply flight_transparent|]. split; [apply flight_coalesced|].
+  intros k o. apply memo_from_exec.
+Qed.
+Print Assumptions c19_flight_transparent.
+
+(* Failures are NOT memoised by a flight cache (the configuration read from flightCache.Do, and
+   any configuration that is not "keep everything"): in every reachable state the map holds
+   successes only; and after ANY history in which every execution for key k failed, a later call —
+   made when nothing runs for k — executes fn again, and if that execution succeeds the caller gets
+   its value (and the flight cache now remembers it).  A transient failure is never permanent. *)
+Theorem c19_flight_no_error_memo : forall cf tr k c v,
+  conf_of_shape flight_do_shape = Some cf \/ f_mode cf <> MAll ->
+  let s := frun cf finit tr in
+  NoErrorMemo s /\
+  (flight s k = None -> pending s = [] ->
+   (forall o, In o (execs_of k s) -> is_ok o = false) ->
+   let s' := frun cf s (call_seq c k (OOk v)) in
+   started s' = k :: started s /\ execs s' = (k, OOk v) :: execs s /\ rets s' = (c, k, OOk v) :: rets s /\
+   memo s' k = (match f_mode cf with MSuccess => Some (OOk v) | _ => None end)).
+Proof.
+  intros cf tr k c v H s.
+  assert (Hm : f_mode cf <> MAll).
+  { destruct H as [H|H]; [|exact H]. vm_compute in H. inversion H. discriminate. }
+  split; [apply flight_no_error_memo; exact Hm|].
+  intros Hf Hp Hall. apply (call_after_failures cf tr k c v Hm Hf Hp Hall).
+Qed.
+Print Assumptions c19_flight_no_error_memo.
+
+(* ... and this is what the sync.Once cache of expanded packages (apkCache.get as it is today) does
+   NOT have — finding C19-F4: the statement above is FALSE for conf_once.  One failed execution
+   (a transient failure of a package download in one build of the process) and every later call for
+   the key, whatever fn would return now, is handed that error without fn being executed again;
+   the same sequence on a flight cache executes again and succeeds.  General form: with the recheck
+   a memoised result of either kind is permanent. *)
+Theorem c19_once_cache_error_memo_refuted :
+  (exists tr k c v, let s := frun conf_once finit tr in
+     flight s k = None /\ pending s = [] /\ (forall o, In o (execs_of k s) -> is_ok o = false) /\
+     let s' := frun conf_once s (call_seq c k (OOk v)) in
+     started s' = started s /\ exists e, rets s' = (c, k, OErr e) :: rets s) /\
+  (forall cf tr k o c o2, f_recheck cf = true -> f_mode cf <> MNone ->
+     let s := frun cf finit tr in
+     memo s k = Some o -> pending s = [] ->
+     let s' := frun cf s (call_seq c k o2) in
+     rets s' = (c, k, o) :: rets s /\ started s' = started s /\ execs s' = execs s) /\
+  model_seq conf_once [("k", OErr "e1"); ("k", OOk "v2"); ("k", OOk "v3")] =
+    [ {| oc_key := "k"; oc_exec := true; oc_out := OErr "e1"; oc_res := OErr "e1" |};
+      {| oc_key := "k"; oc_exec := false; oc_out := OOk "v2"; oc_res := OErr "e1" |};
+      {| oc_key := "k"; oc_exec := false; oc_out := OOk "v3"; oc_res := OErr "e1" |} ] /\
+  model_seq conf_flight_cache [("k", OErr "e1"); ("k", OOk "v2"); ("k", OOk "v3")] =
+    [ {| oc_key := "k"; oc_exec := true; oc_out := OErr "e1"; oc_res := OErr "e1" |};
+      {| oc_key := "k"; oc_exec := true; oc_out := OOk "v2"; oc_res := OOk "v2" |};
+      {| oc_key := "k"; oc_exec := false; oc_out := OOk "v3"; oc_res := OOk "v2" |} ].
+Proof.
+  split.
+  { exists (call_seq 0 "k" (OErr "e1")), "k", 1, "v2". cbv zeta.
+    split; [reflexivity|]. split; [reflexivity|]. split.
+    - intros o Ho. vm_compute in Ho. destruct Ho as [<-|[]]. reflexivity.
+    - split; [reflexivity|]. exists "e1". reflexivity. }
+  split; [intros cf tr k o c o2 Hr Hm; apply memo_permanent_call; assumption|].
+  split; vm_compute; reflexivity.
+Qed.
+Print Assumptions c19_once_cache_error_memo_refuted.
+
+(* A memoised result is permanent and nothing is executed for its key again (exactly-once on
+   success), whenever the leader looks at the map again inside the group (flightCache.Do, sync.Once):
+   after any further events the entry is unchanged and the number of executions started for the key
+   has not grown. *)
+Theorem c19_flight_memo_permanent : forall cf tr tr' k o, f_recheck cf = true ->
+  let s := frun cf finit tr in
+  memo s k = Some o ->
+  let s' := frun cf s tr' in
+  memo s' k = Some o /\ count_key k (started s') = count_key k (started s) /\ flight s' k = None.
+Proof. exact memo_permanent. Qed.
+Print Assumptions c19_flight_memo_permanent.
+
+(* What an observer sees of ANY sequence of calls made one after the other on a flight cache or a
+   bare group is sound — a call that executed fn returns what fn returned, a call that did not
+   returns a success produced by an earlier execution for the same key, never an error — and the
+   validator the harness runs on observed sequences decides exactly that. *)
+Theorem c19_flight_seq_sound : forall cf calls tag,
+  f_mode cf <> MAll ->
+  validate_seq tag [] (model_seq cf calls) = [] /\
+  (forall l, validate_seq tag [] l = [] <-> SeqSound [] l).
+Proof.
+  intros cf calls tag Hm. split; [apply validate_seq_iff; apply seq_sound; exact Hm|].
+  intros l. apply validate_seq_iff.
+Qed.
+Print Assumptions c19_flight_seq_sound.
+
+Example c19_flight_examples :
+  (* two callers coalesced into one execution, a third one after it hits the memo *)
+  List.map snd (rets (frun conf_flight_cache finit
+     [ELoad 0 "k"; EEnter 0 "k"; ELoad 1 "k"; EEnter 1 "k"; EFinish "k" (OOk "v"); ELoad 2 "k"])) = [OOk "v"; OOk "v"; OOk "v"] /\
+  started (frun conf_flight_cache finit
+     [ELoad 0 "k"; EEnter 0 "k"; ELoad 1 "k"; EEnter 1 "k"; EFinish "k" (OOk "v"); ELoad 2 "k"]) = ["k"] /\
+  (* the window of cacheTransport.head: a caller whose lookup missed enters the group after the
+     flight has ended and sends a second HEAD (no recheck); flightCache.Do does not *)
+  started (frun conf_head_etag finit [ELoad 0 "k"; ELoad 1 "k"; EEnter 0 "k"; EFinish "k" (OOk "v"); EEnter 1 "k"]) = ["k"; "k"] /\
+  started (frun conf_flight_cache finit [ELoad 0 "k"; ELoad 1 "k"; EEnter 0 "k"; EFinish "k" (OOk "v"); EEnter 1 "k"]) = ["k"].
+Proof. vm_compute. repeat split. Qed.
+
+(* ======================================================================================
+   fetchOffline's choice among the entries of a cache directory
+   ====================================================================================== *)
+
+(* For every directory (any number of entries, any listing order, any modification times, ties
+   included): the entry opened is an entry of the directory, no entry is newer, and of the newest
+   ones it is the FIRST in listing order; it exists iff the directory is not empty; and when the
+   newest modification time is unique the listing order does not matter at all. *)
+Theorem c19_offline_picks_newest : forall l,
+  (forall e, pick_newest l = Some e -> Newest l e /\ FirstNewest l e) /\
+  (l <> [] -> exists e, pick_newest l = Some e) /\
+  (forall l' e e', Permutation l l' -> pick_newest l = Some e -> pick_newest l' = Some e' ->
+     (forall x, In x l -> de_mtime x = de_mtime e -> x = e) -> e' = e).
+Proof.
+  intros l. split; [intros e H; split; [apply pick_newest_newest|apply pick_first_newest]; exact H|].
+  split; [apply pick_some|]. intros l' e e'. apply pick_unique_max.
+Qed.
+Print Assumptions c19_offline_picks_newest.
+
+(* What the property needs of that entry — it holds ALL the bytes of one served response, of the
+   file that was asked for — does NOT follow (findings C19-F5 and C19-F6):
+   (a) the newest entry may be the leftover temporary file of a download that failed or was killed:
+       a strict prefix of a served body is opened although a complete revision is advertised next to it;
+   (b) a directory holds the cached copies of several files (keyring URLs in one URL directory are all
+       filed as <etag>.etag): a request for one file is answered with the bytes of another.
+   With the choice restricted to advertised names (the repair of (a)) the entry is whole whenever the
+   advertised entries are (which c19_invariant gives); and in a directory that holds the copies of one
+   file only (the repair of (b)) the entry belongs to the file asked for. *)
+Definition f5_dir : list dentry :=
+  [ {| de_name := "1.tmp"; de_mtime := 10; de_adv := false; de_file := "APKINDEX.tar.gz"; de_rev := "r0"; de_whole := true |};
+    {| de_name := "9.tmp"; de_mtime := 20; de_adv := false; de_file := "APKINDEX.tar.gz"; de_rev := "r1"; de_whole := false |};
+    {| de_name := "e0.tar.gz"; de_mtime := 11; de_adv := true; de_file := "APKINDEX.tar.gz"; de_rev := "r0"; de_whole := true |} ].
+Definition f6_dir : list dentry :=
+  [ {| de_name := "100.tmp"; de_mtime := 10; de_adv := false; de_file := "a.rsa.pub"; de_rev := "only"; de_whole := true |};
+    {| de_name := "101.tmp"; de_mtime := 20; de_adv := false; de_file := "b.rsa.pub"; de_rev := "only"; de_whole := true |};
+    {| de_name := "ea.etag"; de_mtime := 11; de_adv := true; de_file := "a.rsa.pub"; de_rev := "only"; de_whole := true |};
+    {| de_name := "eb.etag"; de_mtime := 21; de_adv := true; de_file := "b.rsa.pub"; de_rev := "only"; de_whole := true |} ].
+Theorem c19_offline_entry_refuted :
+  (exists l e, pick_newest l = Some e /\ de_whole e = false /\
+               exists a, In a l /\ de_adv a = true /\ de_whole a = true /\ de_file a = "APKINDEX.tar.gz") /\
+  (exists l e, pick_newest l = Some e /\ (forall x, In x l -> de_whole x = true) /\
+               (exists a, In a l /\ de_adv a = true /\ de_file a = "a.rsa.pub") /\ de_file e <> "a.rsa.pub") /\
+  (* the repairs *)
+  (forall l e, pick_newest_adv l = Some e -> (forall x, In x l -> de_adv x = true -> de_whole x = true) ->
+               de_adv e = true /\ de_whole e = true /\ In e l) /\
+  (forall l e req, pick_newest l = Some e -> (forall x, In x l -> de_file x = req) -> de_file e = req).
+Proof.
+  split; [exists f5_dir; eexists; split; [reflexivity|]; split; [reflexivity|]; eexists; split;
+          [right; right; left; reflexivity|repeat split]|].
+  split; [exists f6_dir; eexists; split; [reflexivity|]; split;
+          [intros x [<-|[<-|[<-|[<-|[]]]]]; reflexivity|]; split;
+          [eexists; split; [right; right; left; reflexivity|split; reflexivity]|discriminate]|].
+  split.
+  - intros l e H Hall. unfold pick_newest_adv in H. destruct (pick_newest_newest _ _ H) as [Hin _].
+    apply filter_In in Hin. destruct Hin as [Hin Ha]. split; [exact Ha|]. split; [apply Hall; assumption|exact Hin].
+  - intros l e req H Hall. apply Hall. apply (pick_newest_newest _ _ H).
+Qed.
+Print Assumptions c19_offline_entry_refuted.
+
+(* the validator run on real directories and on what the real fetchOffline opened decides the
+   readable statement *)
+Theorem c19_offline_validator_decides : forall req l e, validate_offline req l e = [] <-> OfflineSound req l e.
+Proof. exact validate_offline_iff. Qed.
+Print Assumptions c19_offline_validator_decides.
